@@ -251,10 +251,15 @@ type NXActionConnTrack struct {
 }
 
 func (a *NXActionConnTrack) Len() (n uint16) {
-	return a.Length
+	n = 24
+	for _, act := range a.actions {
+		n += act.Len()
+	}
+	return
 }
 
 func (a *NXActionConnTrack) MarshalBinary() (data []byte, err error) {
+	a.Length = a.Len()
 	data = make([]byte, int(a.Length))
 	var b []byte
 	n := 0
@@ -291,7 +296,7 @@ func (a *NXActionConnTrack) UnmarshalBinary(data []byte) error {
 	a.NXActionHeader = new(NXActionHeader)
 	err := a.NXActionHeader.UnmarshalBinary(data[n:])
 	n += int(a.NXActionHeader.Len())
-	if len(data) < int(a.Len()) {
+	if len(data) < int(a.Length) {
 		return errors.New("the []byte is too short to unmarshal a full NXActionConnTrack message")
 	}
 	a.Flags = binary.BigEndian.Uint16(data[n:])
@@ -307,7 +312,7 @@ func (a *NXActionConnTrack) UnmarshalBinary(data []byte) error {
 	a.Alg = binary.BigEndian.Uint16(data[n:])
 	n += 2
 
-	for n < int(a.Len()) {
+	for n < int(a.Length) {
 		act, err := DecodeAction(data[n:])
 		if err != nil {
 			return errors.New("failed to decode actions")
